@@ -13,13 +13,17 @@
 //     and all connections together, timestamps taken after the read returns (a lower bound on time only);
 //  6. declared prefixes: PROXY protocol header (own parser; source = user's socket, destination = dialed
 //     address for directly exposed proxies), sniffed ClientHello / CONNECT request replayed byte-exactly.
+//  7. long-lived connections (script longidle, one extra case per server running next to the others): every proxy
+//     kind, data in both directions again 35 s after the connection was opened;
+//  8. tunnels ending in client plugins (plugin.go) next to many short compressed connections of other proxies.
 //
 // Violation keys (stable identities): stream-altered-up|down, bytes-injected, cross-wired, connection-duplicated,
 // unattributed-backend-connection, orderly-close-truncated-up|down, unprompted-close, delivery-stalled,
 // close-not-propagated-to-backend|user[-server-side-limit|-kcp-without-tcpmux], bandwidth-limit-exceeded-
 // server-mode|client-mode[-compressed], proxy-protocol-*, sniffed-prefix-not-replayed, tcpmux-early-data-lost,
 // tcpmux-connect-not-answered, https-tls-handshake-failed, greeting-not-delivered,
-// visitor-connection-dropped-when-backend-speaks-first, backend-connection-left-open.
+// visitor-connection-dropped-when-backend-speaks-first, backend-connection-left-open,
+// long-lived-connection-broken-after-idle-<kind>, stream-altered-down|unprompted-close|delivery-stalled-via-client-plugin.
 package main
 
 import (
@@ -27,7 +31,10 @@ import (
 	"fmt"
 	"math/rand"
 	"os"
+	"path/filepath"
+	"runtime/debug"
 	"sort"
+	"strings"
 	"sync"
 	"sync/atomic"
 	"time"
@@ -90,13 +97,14 @@ transport.maxPoolCount = 5
 
 func main() {
 	run = h.NewRun(prop, "exploration")
-	run.Rule = "case = (server option set, control transport, TLS mode, pool size; 2-3 proxies each with kind, encryption, compression, limiter side+rate, PROXY version, greeting; 3-8 (sometimes 16-36 small simultaneous) connection scripts each with payload sizes, content classes, chunkings, close order); the first cases form a greedy all-pairs covering array over the option factors, the rest are PRNG extras, plus four fixed cases (kcp without tcpMux; visitor hand-over parked at a hook while the backend speaks first, on two servers; quic streams whose last read carries data and end-of-stream through a 4 KB/s limiter on either side); distinct = distinct full case signature; every counted connection moved checked bytes or a checked close through a real frpc-frps tunnel"
+	run.Rule = "case = (server option set, control transport, TLS mode, pool size; 2-3 proxies each with kind, encryption, compression, limiter side+rate, PROXY version, greeting; 3-8 (sometimes 16-36 small simultaneous) connection scripts each with payload sizes, content classes, chunkings, close order); the first cases form a greedy all-pairs covering array over the option factors, the rest are PRNG extras, plus four long-lived cases running next to the others (one per server: every proxy kind, data again in both directions 35 s after the connection was opened) and six fixed cases (compressed tunnels ending in client plugins next to many short compressed connections, on two servers; kcp without tcpMux; visitor hand-over parked at a hook while the backend speaks first, on two servers; quic streams whose last read carries data and end-of-stream through a 4 KB/s limiter on either side); distinct = distinct full case signature; every counted connection moved checked bytes or a checked close through a real frpc-frps tunnel"
 	run.Assumptions = []string{
 		"'eventually delivered' is decided as bounded progress: 60 s without a byte on a connection whose both ends are open is a stall; a close must reach the other end within 30 s",
 		"kcp is excluded from the completeness clause of orderly close (the property says reliable transports); prefix, identity and close propagation are still judged over kcp",
 		"the rate bound is anchored at an idle instant before the first connection of the proxy; receiver timestamps are taken after the read returns, so machine load can only make the bound easier to satisfy; golang.org/x/time/rate itself over-issues tokens when WaitN has concurrent callers (excess = rate x scheduling delay; up to 8 % seen at machine load 70), so proxies with concurrent traffic are judged with 25 % tolerance and proxies driven by one unidirectional stream at a time (single caller, exact bound) with 1 %",
 		"wss is not driven (frps does not terminate wss itself); xtcp is driven through its fallback to an stcp visitor (STUN unreachable)",
 		"tcpMux has the same value on both ends (a mismatch is not a supported configuration)",
+		"plugin tunnels with encryption or compression carry one request per connection: a second request on such a keep-alive connection is cut by frp's plugin conn wrapper, which is property C02's listed finding (keepalive-connection-dropped-via-*-enc-or-comp) and is not judged again here",
 	}
 	if os.Getenv("C01_DEBUG_SHORT_GRACE") != "" { // debugging aid only: not a verdict configuration
 		stallGrace, closeGrace = 8*time.Second, 5*time.Second
@@ -126,7 +134,40 @@ func main() {
 	// and one where every stream ends with a read that carries data together with end-of-stream (quic), through a
 	// slow limiter on either side: those last bytes count like any others
 	cases = append(cases, limiterLastReadCase())
+	// and two where compressed tunnels that end in client plugins (the plugin keeps the connection after its
+	// handler returned) run slow keep-alive downloads while many short compressed connections come and go
+	cases = append(cases, pluginCase(0), pluginCase(2))
 	n = len(cases)
+
+	// Long-lived connections: one case per server, started now and running next to the cases below. Each opens
+	// connections of every proxy kind, exchanges some data, leaves them untouched until 35 s after they were opened
+	// (longer than the 30 s deadlines frps arms while it sniffs vhost connections), then moves data in both
+	// directions again and closes. They are mostly idle, so they cost the run (almost) no wall time.
+	var lwg sync.WaitGroup
+	for i := range servers {
+		idx := longLivedBase + i
+		if run.OnlyCase >= 0 && run.OnlyCase != idx {
+			continue
+		}
+		lwg.Add(1)
+		go func() {
+			defer lwg.Done()
+			c := run.NewCase(idx)
+			defer func() {
+				if p := recover(); p != nil {
+					st := string(debug.Stack())
+					if strings.Contains(st, "github.com/fatedier/frp") {
+						c.Violation("panic:"+h.TopFrpFrame(st), "panic on the calling goroutine: %v\n%s", p, st)
+					} else {
+						fmt.Fprintf(os.Stderr, "harness panic in long-lived case %d: %v\n%s\n", idx, p, st)
+						run.Inconclusive("harness panic")
+					}
+				}
+			}()
+			runCase(c, longLivedCase(servers[i], run.RandFor("long", i), run.Thorough()), servers[i])
+			run.Eval(1)
+		}()
+	}
 
 	onlyLimited := os.Getenv("C01_DEBUG_ONLY_LIMITED") != "" // debugging aid only
 	run.Parallel(n, 12, func(c *h.Case) {
@@ -151,6 +192,7 @@ func main() {
 		}
 		runCase(c, cases[c.Idx], servers[cases[c.Idx].Server])
 	})
+	lwg.Wait()
 	for _, sv := range servers {
 		sv.s.Close()
 	}
@@ -166,6 +208,60 @@ func visitorEarlyDataCase(server int) *caseCfg {
 	return &caseCfg{Server: server, A: cliOpts{Proto: "tcp", TLS: 0, Pool: 5}, B: cliOpts{Proto: "tcp", TLS: 0, Pool: 1}, GateVisitor: true,
 		Proxies: []proxyCfg{{Kind: "stcp", VEnc: true, Greet: true, Serial: true, Conns: []connCfg{
 			conn("duplex", "U", 1000, 1000, 21), conn("duplex", "B", 100, 3000, 23), conn("downclose", "B", 0, 5000, 25)}}}}
+}
+
+const longLivedBase = 100000 // case indexes of the long-lived cases (one per server)
+
+func longLivedCase(sv *srvInfo, rng *rand.Rand, thorough bool) *caseCfg {
+	opts := [][2]cliOpts{
+		{{Proto: "tcp", TLS: 0, Pool: 1}, {Proto: "quic", TLS: 0, Pool: 1}},
+		{{Proto: "websocket", TLS: 1, Pool: 1}, {Proto: "kcp", TLS: 0, Pool: 1}},
+		{{Proto: "quic", TLS: 0, Pool: 5}, {Proto: "websocket", TLS: 0, Pool: 1}},
+		{{Proto: "tcp", TLS: 1, Pool: 5}, {Proto: "tcp", TLS: 0, Pool: 0}},
+	}[sv.idx%4]
+	cc := &caseCfg{Server: sv.idx, A: opts[0], B: opts[1]}
+	k := 1
+	if thorough {
+		k = 2
+	}
+	for _, kind := range kinds {
+		p := proxyCfg{Kind: kind, Enc: rng.Intn(2) == 0, Comp: rng.Intn(2) == 0, VEnc: rng.Intn(2) == 0, VComp: rng.Intn(2) == 0, Greet: rng.Intn(4) == 0}
+		for i := 0; i < k; i++ {
+			p.Conns = append(p.Conns, connCfg{Script: "longidle", IdleMs: 35000, NUp: 2000 + rng.Int63n(30000), NDown: 2000 + rng.Int63n(30000),
+				ClsUp: rng.Intn(numClasses), ClsDown: rng.Intn(numClasses), ChunkUp: chunks[2+rng.Intn(5)], ChunkDown: chunks[2+rng.Intn(5)],
+				ALPN: []int{0, 3, 40}[rng.Intn(3)], DelayMs: rng.Intn(200), SeedUp: rng.Uint64(), SeedDown: rng.Uint64()})
+		}
+		cc.Proxies = append(cc.Proxies, p)
+	}
+	return cc
+}
+
+func pluginCase(server int) *caseCfg {
+	swarm := func(k int, seed uint64) []connCfg {
+		var out []connCfg
+		for i := 0; i < k; i++ {
+			out = append(out, connCfg{Script: "duplex", Closer: []string{"U", "B"}[i%2], NUp: int64(1000 + 1777*i%40000), NDown: int64(500 + 2111*i%40000),
+				ClsUp: i % numClasses, ClsDown: (i + 1) % numClasses, ChunkUp: 4096, ChunkDown: 1460, Pause: true,
+				DelayMs: i * 2400 / k, SeedUp: seed + uint64(2*i), SeedDown: seed + uint64(2*i) + 1})
+		}
+		return out
+	}
+	return &caseCfg{Server: server, A: cliOpts{Proto: "tcp", TLS: 0, Pool: 5}, B: cliOpts{Proto: "tcp", TLS: 0, Pool: 1},
+		Proxies: []proxyCfg{
+			{Kind: "tcp", Comp: true, Conns: swarm(28, 1000)},
+			{Kind: "stcp", Comp: true, Enc: true, VComp: true, Conns: swarm(20, 2000)},
+			{Kind: "tcp", Comp: true, Enc: true, Conns: swarm(20, 3000)},
+		},
+		// one request per connection on tunnels with encryption or compression: a second request on such a keep-alive
+		// connection is cut by frp's plugin conn wrapper (expired read deadline kept for ever by the crypto/snappy readers),
+		// which is C02's listed finding keepalive-connection-dropped-via-*-enc-or-comp, not what this case is about
+		Plugins: []pluginCfg{
+			{Plugin: "http2http", Type: "tcp", Comp: true, Conns: 10, Rounds: 1, Parts: 24, PartBytes: 1024, PauseMs: 90, Cls: clsText, Seed: 7000},
+			{Plugin: "http_proxy", Type: "tcp", Comp: true, Enc: true, Conns: 8, Rounds: 1, Parts: 20, PartBytes: 2048, PauseMs: 100, Cls: clsRandom, Seed: 8000},
+			{Plugin: "static_file", Type: "stcp", Comp: true, Conns: 6, Rounds: 1, Parts: 1, PartBytes: 200000, PauseMs: 0, Cls: clsMixed, Seed: 9000},
+			{Plugin: "http2http", Type: "stcp", Comp: true, Enc: true, Conns: 6, Rounds: 1, Parts: 20, PartBytes: 1500, PauseMs: 110, Cls: clsZeros, Seed: 9500},
+			{Plugin: "http_proxy", Type: "tcp", Conns: 3, Rounds: 4, Parts: 5, PartBytes: 3000, PauseMs: 60, Cls: clsText, Seed: 9800},
+		}}
 }
 
 func limiterLastReadCase() *caseCfg {
@@ -258,6 +354,10 @@ type plan struct {
 	attached  atomic.Bool
 	failed    atomic.Bool
 	earlySent atomic.Bool
+	inPhase2  atomic.Bool // longidle: the second exchange (after the long idle period) has begun
+	phase2    chan struct{}
+	uGot2     chan struct{}
+	bGot2     chan struct{}
 	uGotAll   chan struct{}
 	bGotAll   chan struct{}
 	uClosed   chan struct{}
@@ -293,6 +393,10 @@ func (cs *caseState) fail(pl *plan, key string, format string, args ...any) {
 	if pl != nil {
 		if !pl.failed.CompareAndSwap(false, true) {
 			return
+		}
+		if pl.inPhase2.Load() {
+			// whatever the symptom: the connection worked when it was opened and fails after having been idle
+			key = "long-lived-connection-broken-after-idle-" + pl.px.cfg.Kind
 		}
 		if pl.earlySent.Load() {
 			switch key {
@@ -352,7 +456,7 @@ func (cs *caseState) judgeRead(pl *plan, dir string, res readRes, want int64, un
 		cs.fail(pl, key, "proxy %s, %s direction: received stream %v", px.name, dir, res.mismatch)
 		return false
 	}
-	cs.run.Count("bytes_verified_"+dir, res.N)
+	cs.run.Count("bytes_verified_"+dir, res.N-res.Base)
 	if !untilEOF {
 		if res.N == want {
 			return true
@@ -395,6 +499,11 @@ func runCase(c *h.Case, cc *caseCfg, sv *srvInfo) {
 	needB := false
 	for i := range cc.Proxies {
 		if k := cc.Proxies[i].Kind; k == "stcp" || k == "xtcp" {
+			needB = true
+		}
+	}
+	for i := range cc.Plugins {
+		if cc.Plugins[i].Type == "stcp" {
 			needB = true
 		}
 	}
@@ -450,6 +559,39 @@ func runCase(c *h.Case, cc *caseCfg, sv *srvInfo) {
 		aText += proxyTOML(px.name, p, ports[0], ports[1], px.domain)
 		names = append(names, px.name)
 		cs.pxs = append(cs.pxs, px)
+	}
+	// proxies served by client plugins
+	var plugs []*pluginRT
+	var org *origin
+	if len(cc.Plugins) > 0 {
+		var err error
+		if org, err = startOrigin(fmt.Sprintf("O%d", c.Idx), pa.Get()); err != nil {
+			run.Inconclusive("origin listen failed")
+			return
+		}
+		defer org.close()
+	}
+	for j := range cc.Plugins {
+		pc := &cc.Plugins[j]
+		pr := &pluginRT{cfg: pc, name: fmt.Sprintf("%s.g%d", pfx, j)}
+		port := pa.Get()
+		pr.dialAddr = fmt.Sprintf("127.0.0.1:%d", port)
+		dir := ""
+		if pc.Plugin == "static_file" {
+			dir = filepath.Join(h.RunDir(prop), "static", fmt.Sprintf("%d-%s", os.Getpid(), pr.name))
+			if err := writeStaticFiles(dir, pc); err != nil {
+				run.Inconclusive("static files not written")
+				return
+			}
+			defer os.RemoveAll(dir)
+		}
+		aText += pluginProxyTOML(pr.name, pc, port, org.port, dir)
+		names = append(names, pr.name)
+		if pc.Type == "stcp" {
+			bText += visitorTOML(pr.name+".v", "stcp", pr.name, port, &proxyCfg{VEnc: pc.Enc, VComp: pc.Comp}, "")
+			visitorPorts = append(visitorPorts, port)
+		}
+		plugs = append(plugs, pr)
 	}
 	c.Data["frpc_a"], c.Data["frpc_b"] = aText, ""
 
@@ -507,7 +649,8 @@ func runCase(c *h.Case, cc *caseCfg, sv *srvInfo) {
 		var pls []*plan
 		for j := range px.cfg.Conns {
 			pl := &plan{cs: cs, px: px, cfg: &px.cfg.Conns[j], id: id,
-				uGotAll: make(chan struct{}), bGotAll: make(chan struct{}), uClosed: make(chan struct{}), uDone: make(chan struct{}), bDone: make(chan struct{})}
+				uGotAll: make(chan struct{}), bGotAll: make(chan struct{}), uClosed: make(chan struct{}), uDone: make(chan struct{}), bDone: make(chan struct{}),
+				phase2: make(chan struct{}), uGot2: make(chan struct{}), bGot2: make(chan struct{})}
 			id++
 			sum := sha256.Sum256([]byte(fmt.Sprintf("%d|%d|%d|%d|%d", run.Seed, c.Idx, px.idx, j, pl.cfg.SeedUp)))
 			copy(pl.nonce[:], sum[:16])
@@ -538,6 +681,18 @@ func runCase(c *h.Case, cc *caseCfg, sv *srvInfo) {
 			}
 			w2.Wait()
 		}()
+	}
+	for _, pr := range plugs {
+		pr := pr
+		for k := 0; k < pr.cfg.Conns; k++ {
+			k := k
+			wg.Add(1)
+			go func() {
+				defer wg.Done()
+				time.Sleep(time.Duration(k*37%400) * time.Millisecond)
+				pluginConn(cs, pr, org, k)
+			}()
+		}
 	}
 	wg.Wait()
 
